@@ -115,6 +115,15 @@ static void run_ops(fdesc_t* me) {
       vrt_api("\"f\":\"%s\",\"ph\":\"call\",\"op\":\"trylock\",\"o\":\"%s\"", f, op->a1);
       int r = fiber_mutex_trylock(drv_obj("mutex", op->a1));
       vrt_api("\"f\":\"%s\",\"ph\":\"ret\",\"op\":\"trylock\",\"o\":\"%s\",\"r\":%d", f, op->a1, r);
+    } else if (!strcmp(op->op, "trylockun")) {
+      vrt_api("\"f\":\"%s\",\"ph\":\"call\",\"op\":\"trylock\",\"o\":\"%s\"", f, op->a1);
+      int r = fiber_mutex_trylock(drv_obj("mutex", op->a1));
+      vrt_api("\"f\":\"%s\",\"ph\":\"ret\",\"op\":\"trylock\",\"o\":\"%s\",\"r\":%d", f, op->a1, r);
+      if (r) {
+        vrt_api("\"f\":\"%s\",\"ph\":\"call\",\"op\":\"unlock\",\"o\":\"%s\"", f, op->a1);
+        fiber_mutex_unlock(drv_obj("mutex", op->a1));
+        vrt_api("\"f\":\"%s\",\"ph\":\"ret\",\"op\":\"unlock\",\"o\":\"%s\",\"r\":1", f, op->a1);
+      }
     } else if (!strcmp(op->op, "unlock")) {
       vrt_api("\"f\":\"%s\",\"ph\":\"call\",\"op\":\"unlock\",\"o\":\"%s\"", f, op->a1);
       fiber_mutex_unlock(drv_obj("mutex", op->a1));
@@ -170,8 +179,8 @@ int main(void) {
     }
   }
   for (int i = 0; i < g_nf; i++) {
-    char nm[40];
-    snprintf(nm, sizeof nm, "res_%s", g_f[i].name);
+    char nm[64];
+    snprintf(nm, sizeof nm, "res_%.40s", g_f[i].name);
     vrt_reg_name(nm, g_f[i].resbuf, sizeof g_f[i].resbuf);
   }
   drv_ext_setup();
